@@ -127,9 +127,11 @@ def _lemma_shard(sh: Dict[str, Any]) -> Dict[str, Any]:
         if not ok and len(cex) < 3:
             cex.append({"lemma": "L2", "model": e.model(), "entries": E, "why": "handler chain differs from CPython's table lookup"})
 
-    eng = Engine(bv=40, query_timeout_ms=20000, max_seconds=sh.get("budget", 600), max_decisions_per_path=3000)
+    eng = Engine(bv=40, query_timeout_ms=20000, max_seconds=sh.get("budget", 600), max_decisions_per_path=3000,
+                 cross_check=bool(sh.get("cvc5")))
     eng.explore(harness)
-    return par.shard_result(eng, shard=f"{which}/E={E}/NB={NB}/{sh.get('fixed0')}", cex=cex, samples=samples, reached=reached[0])
+    return par.shard_result(eng, shard=f"{which}/E={E}/NB={NB}/{sh.get('fixed0')}", cex=cex, samples=samples, reached=reached[0],
+                            extra={"lemma_unsat_answers_confirmed_by_cvc5": eng.cross_checked})
 
 
 def replay_lemma(case: Dict[str, Any]) -> Dict[str, Any]:
@@ -412,10 +414,11 @@ def run(rep: Any, tier: str, seed: int) -> None:
         NB = 2 if (tier == "quick" or E == 3) else 3
         for which in ("L1", "L2"):
             if E == 1:
-                jobs.append(("_lemma_shard", {"entries": E, "nbytes": NB, "which": which}))
+                jobs.append(("_lemma_shard", {"entries": E, "nbytes": NB, "which": which, "cvc5": tier == "thorough", "budget": 2400}))
             else:
                 for fixed in itertools.product(range(1, NB + 1), repeat=4):
-                    jobs.append(("_lemma_shard", {"entries": E, "nbytes": NB if E < 3 else 1, "which": which, "fixed0": list(fixed)}))
+                    jobs.append(("_lemma_shard", {"entries": E, "nbytes": NB if E < 3 else 1, "which": which, "fixed0": list(fixed),
+                                                  "cvc5": tier == "thorough" and E < 3, "budget": 2400}))
     for c in chunks(tier, seed, 32 if tier == "quick" else 64):
         jobs.append(("_main_shard", c))
     res = par.run_mixed("harness.c01", jobs)
